@@ -583,7 +583,38 @@ func GenDoc(r *Rng, s *GSchema, nfaults int) (string, []string) {
 	}
 	// document-level faults that are always applicable: spend what is left
 	for tries := 0; g.faults > 0 && tries < 6; tries++ {
-		switch r.Intn(4) {
+		switch r.Intn(6) {
+		case 4, 5:
+			// conflicts reached through nested fragment spreads: x is selected
+			// directly and, under other field names, inside 2-3 fragments that a
+			// wrapper fragment spreads
+			g.faults--
+			g.noted = append(g.noted, "nested-fragment-conflicts")
+			root := s.idx[s.Query]
+			leaves := []string{"__typename"}
+			for _, f := range root.Fields {
+				if !isComposite(s.idx[f.Type.Base()]) {
+					req := false
+					for _, a := range f.Args {
+						if a.Type.NonNull && a.Default == "" {
+							req = true
+						}
+					}
+					if !req {
+						leaves = append(leaves, f.Name)
+					}
+				}
+			}
+			g.nfrag++
+			base := "N" + strconv.Itoa(g.nfrag)
+			k := r.Range(2, 3)
+			outer := "fragment " + base + "Outer on " + root.Name + " {\n"
+			for i := 0; i < k; i++ {
+				outer += "  ..." + base + "I" + strconv.Itoa(i) + "\n"
+				g.frags = append(g.frags, "fragment "+base+"I"+strconv.Itoa(i)+" on "+root.Name+" {\n  x: "+leaves[(i+1)%len(leaves)]+"\n  y"+strconv.Itoa(i)+": __typename\n}\n")
+			}
+			g.frags = append(g.frags, outer+"}\n")
+			ops[0] = strings.TrimSuffix(ops[0], "}\n") + "  x: " + leaves[0] + "\n  ..." + base + "Outer\n}\n"
 		case 0:
 			g.faults--
 			g.noted = append(g.noted, "unused-fragment")
